@@ -249,6 +249,50 @@ CLAIMED = {
              "(listed in the evidence); within each renaming all numeric content is universally quantified.",
         technique="contract-based deductive verification of role-level contracts, repeated under a finite family of adversarial renamings",
     ),
+    "C03": dict(
+        category="proof",
+        text=("Composition of contracts: (1) C05 (halo = documented cell) and C01 (stencil) proved separately; (2) proved here on the "
+              "real code: Grid.diff/interp/min/max on a face-connected grid (generic face of a table of any size, all sizes/data "
+              "symbolic, face dimension before/after extra dims) equals the stencil applied to what the real pad() returns for the "
+              "ufunc's boundary_width; (3) geometry lemma (z3, specification only): for each of f's 4 edges and each of the 4 link "
+              "kinds exactly one of the 8 orientations of the neighbouring square makes the documented source cell the affine "
+              "continuation of f's lattice - then the halo value equals the undivided field there and the reciprocal link (C17) "
+              "serves the neighbour symmetrically. A native two-face cross-check of the lemma's placement model is a BOUNDED stand-in."),
+        design_ref="DESIGN.md 7/C03",
+        note=COMMON_NOTE + "Face f is placed with the identity orientation (rigid motions of the whole domain leave the statement "
+             "invariant); junctions with no matching link kind are not expressible in the format (outside the property).",
+        technique="contract-based deductive verification: composition lemma over the C05/C01 contracts (z3) + relational symbolic execution of the real dispatch",
+    ),
+    "C04": dict(
+        category="proof",
+        text=("(1) C05 vector clauses proved separately; (2) here on the real code: Grid.diff/interp with {axis: component} and "
+              "other_component on a face-connected grid equals the stencil applied to pad()'s result for the vector input, the "
+              "dictionaries are not modified; (3) geometry lemma (z3): for a C-grid vector on the undivided domain and a neighbour "
+              "placed as the non-reversed link kind expresses (identity / quarter turn), the edge value the along-axis diff/interp "
+              "needs equals, by the C05 partner/sign semantics, the undivided component on that edge, hence equal cell divergence; "
+              "(4) on a grid without face connections the vector form equals the scalar form for all 32 operator/shift pairs "
+              "(all sizes and data). A native two-face vector cross-check is a BOUNDED stand-in."),
+        design_ref="DESIGN.md 7/C04",
+        note=COMMON_NOTE + "Lemma restricted to non-reversed links and components on the left position (the statement's family).",
+        technique="contract-based deductive verification: composition lemma over the C05 vector contract (z3) + relational symbolic execution of the real dispatch",
+    ),
+    "C06": dict(
+        category="proof",
+        text=("xgcm's side of lazy execution proved on the real code under ASSUMED end-to-end dask contracts: the boundary-chunk merge "
+              "pattern (same number of chunks, first/last grow by the widths, sums to the padded length; sizes and widths symbolic, "
+              "1-5 chunks), map_overlap called with depth = {numpy axis of the operated dimension after moving core dims last: "
+              "boundary width}, boundary='none', trim=False and the unpadded chunks on the correctly padded and re-chunked array, "
+              "refusal (NotImplementedError) iff inner/outer or several outputs, map_overlap used iff the operated dimension is "
+              "chunked, no eager evaluation on any path of 14 operations (scalar/vector, simple/face-connected), lazy inputs "
+              "accepted wherever in-memory inputs are with the same dims/coords/sizes/values. The scheduler clause is NOT decidable "
+              "by contracts on xgcm; a native run with the real dask (6 chunk layouts x 9 operations x 2 schedulers, compute "
+              "counting) is a BOUNDED stand-in."),
+        design_ref="DESIGN.md 7/C06, 8",
+        note=COMMON_NOTE + "Assumed, not proved: dask.array.map_overlap computes f(A) for a translation-invariant stencil whatever "
+             "the chunking; apply_ufunc(dask='parallelized') and the schedulers preserve values; thread interleavings inside dask "
+             "are outside what contracts on xgcm can express.",
+        technique="contract-based deductive verification of xgcm's side (chunk arithmetic, map_overlap arguments, effect contract for laziness) under assumed dask contracts",
+    ),
 }
 
 NOT_YET = {}
